@@ -2517,6 +2517,7 @@ done:
     file may still be empty while the image has been written: the access is
     asked when there is one.
 --------------------------------------------------------------------------*/
+#define GRI_LENGTH_UNREADABLE (-2)
 static int32
 GRIimglength(ri_info_t *ri_ptr)
 {
@@ -2525,7 +2526,14 @@ GRIimglength(ri_info_t *ri_ptr)
     if (ri_ptr->img_aid != 0 &&
         Hinquire(ri_ptr->img_aid, NULL, NULL, NULL, &length, NULL, NULL, NULL, NULL) != FAIL)
         return length;
-    return Hlength(ri_ptr->gr_ptr->hdf_file_id, ri_ptr->img_tag, ri_ptr->img_ref);
+    length = Hlength(ri_ptr->gr_ptr->hdf_file_id, ri_ptr->img_tag, ri_ptr->img_ref);
+
+    /* "cannot tell" is only the same as "no data yet" when the file has no
+       data for the element: a stored image whose record cannot be read must
+       not be taken for an empty one (and faked with the fill value) */
+    if (length == FAIL && Hoffset(ri_ptr->gr_ptr->hdf_file_id, ri_ptr->img_tag, ri_ptr->img_ref) >= 0)
+        return GRI_LENGTH_UNREADABLE;
+    return length;
 } /* end GRIimglength() */
 
 /*--------------------------------------------------------------------------
@@ -2699,7 +2707,11 @@ GRwriteimage(int32 riid, int32 start[2], int32 in_stride[2], int32 count[2], voi
         new_image = TRUE;
     else {
         /* Check if the actual image data is in the file yet, or if just the tag & ref are known */
-        if (GRIimglength(ri_ptr) > 0)
+        int32 img_len = GRIimglength(ri_ptr);
+
+        if (img_len == GRI_LENGTH_UNREADABLE)
+            HGOTO_ERROR(DFE_READERROR, FAIL);
+        if (img_len > 0)
             new_image = FALSE;
         else
             new_image = TRUE;
@@ -3088,7 +3100,11 @@ GRreadimage(int32 riid, int32 start[2], int32 in_stride[2], int32 count[2], void
     else {
         /* Check if the actual image data is in the file yet, or if just the
            tag & ref are known */
-        if (GRIimglength(ri_ptr) > 0)
+        int32 img_len = GRIimglength(ri_ptr);
+
+        if (img_len == GRI_LENGTH_UNREADABLE)
+            HGOTO_ERROR(DFE_READERROR, FAIL);
+        if (img_len > 0)
             image_data = TRUE;
         else
             image_data = FALSE;
@@ -3242,6 +3258,7 @@ int
 GRendaccess(int32 riid)
 {
     ri_info_t *ri_ptr; /* ptr to the image to work with */
+    int        flush_failed = FALSE; /* the image data could not be written */
     int        ret_value = SUCCEED;
 
     /* clear error stack and check validity of args */
@@ -3269,9 +3286,13 @@ GRendaccess(int32 riid)
     /* Reduce the number of accesses to the RI */
     ri_ptr->access--;
 
-    /* Check if we should shut down the AID we've been holding open */
+    /* Check if we should shut down the AID we've been holding open.
+       For buffered, compressed and chunked images this is where the pixels
+       reach the file: a failure is reported, after the image has been let
+       go of all the same */
     if (!(ri_ptr->access > 0) && ri_ptr->img_aid != 0) {
-        Hendaccess(ri_ptr->img_aid);
+        if (Hendaccess(ri_ptr->img_aid) == FAIL)
+            flush_failed = TRUE;
         ri_ptr->img_aid = 0;
     } /* end if */
 
@@ -3283,6 +3304,9 @@ GRendaccess(int32 riid)
     /* Delete the atom for the RI ID */
     if (NULL == HAremove_atom(riid))
         HGOTO_ERROR(DFE_RINOTFOUND, FAIL);
+
+    if (flush_failed)
+        HGOTO_ERROR(DFE_WRITEERROR, FAIL);
 
 done:
     return ret_value;
